@@ -14,7 +14,7 @@
 (* Sim = TRUE draws each choice with RandomElement (one successor per      *)
 (* state: for `tlc -simulate`); Sim = FALSE enumerates every choice.       *)
 (***************************************************************************)
-EXTENDS IOUtils, MonC07, MonC08, MonC09, MonC10, MonC11, MonC12, MonC13, MonC15, MonC19, Randomization
+EXTENDS IOUtils, MonC07, MonC08, MonC09, MonC10, MonC11, MonC12, MonC13, MonC15, MonC16, MonC19, Randomization
 
 CONSTANTS Sim,        \* BOOLEAN
           Forge,      \* BOOLEAN: forged / duplicated timers allowed
@@ -52,7 +52,7 @@ Cfgs == IF Scope = "tiny"
                                             pa \in BOOLEAN, pad \in BOOLEAN, pg \in BOOLEAN}
 
 MonInit == [C07 |-> C07Init, C08 |-> C08Init, C09 |-> C09Init, C10 |-> C10Init, C11 |-> C11Init, C12 |-> C12Init,
-            C13 |-> C13Init, C15 |-> C15Init, C19 |-> C19Init]
+            C13 |-> C13Init, C15 |-> C15Init, C16 |-> C16Init, C19 |-> C19Init]
 
 Init ==
     /\ \E g \in Pick(IF Scope = "tiny" THEN {0} ELSE {0, 1}), pol \in Pick(Pols), cfg \in Pick(Cfgs),
@@ -162,7 +162,7 @@ MonStep(m, o) ==
         IF p \notin MonSet THEN m[p]
         ELSE CASE p = "C07" -> C07Step(m[p], o) [] p = "C08" -> C08Step(m[p], o)
                [] p = "C09" -> C09Step(m[p], o) [] p = "C10" -> C10Step(m[p], o)
-               [] p = "C11" -> C11Step(m[p], o) [] p = "C12" -> C12Step(m[p], o) [] p = "C13" -> C13Step(m[p], o) [] p = "C15" -> C15Step(m[p], o)
+               [] p = "C11" -> C11Step(m[p], o) [] p = "C12" -> C12Step(m[p], o) [] p = "C13" -> C13Step(m[p], o) [] p = "C15" -> C15Step(m[p], o) [] p = "C16" -> C16Step(m[p], o)
                [] p = "C19" -> C19Step(m[p], o)]
 
 Do(call) ==
